@@ -2,6 +2,7 @@ CONSTANTS
   Fields = {1}
   Sizes = {0}
   MaxOps = 1
+  MaxSets = 2
   Defects = {}
 SPECIFICATION TraceSpec
 POSTCONDITION Accepted
